@@ -587,6 +587,7 @@ type FuncSpec struct {
 	Inline     bool
 	Pure       bool
 	NoSafety   map[string]bool // safety kinds to skip (listed)
+	Forbids    []string        // `forbids K`: neither this function nor what it inlines calls a function whose key starts with K; contract callees must forbid it too
 	Ghost      []*GhostStmt
 	GhostVars  []QVar
 	Uses       []string // lemmas / axioms pulled in
@@ -653,7 +654,7 @@ var specKeywords = map[string]bool{
 	"func": true, "requires": true, "ensures": true, "modifies": true, "loop": true, "arith": true, "define": true,
 	"smt": true, "axiom": true, "lemma": true, "type": true, "interface": true, "method": true, "funcspec": true,
 	"ghost": true, "at": true, "use": true, "trusted": true, "inline": true, "invariant": true, "note": true,
-	"pure": true, "gosequential": true, "chaninv": true, "nosafety": true, "implements": true, "callspec": true, "package": true, "unroll": true,
+	"pure": true, "gosequential": true, "chaninv": true, "forbids": true, "nosafety": true, "implements": true, "callspec": true, "package": true, "unroll": true,
 }
 
 // loadSpecFile parses one contract file. pkg is the default package key ("" for lib files, which
@@ -864,6 +865,11 @@ func (ss *SpecSet) loadSpecFile(path, pkg string) error {
 			for _, k := range strings.Fields(rest) {
 				curF.NoSafety[k] = true
 			}
+		case "forbids":
+			if curF == nil {
+				return fmt.Errorf("%s:%d: forbids outside func", path, it.n)
+			}
+			curF.Forbids = append(curF.Forbids, strings.Fields(strings.ReplaceAll(rest, ",", " "))...)
 		case "implements":
 			curF.Implements = rest
 		case "callspec":
